@@ -1493,3 +1493,4 @@ def shrink(case):
 
 
 NOT_READY = False
+RULE = RULE + ' Fourth session: tree_to_dot handed non-root nodes; parents with 12 and 104 children for all four renderers; the labels a callable edge_attr returns are checked edge by edge.'
